@@ -111,6 +111,37 @@ fn run_crash(prop: &'static str, tier: Tier) -> i32 {
     runner::finish("crash", &out, &ev)
 }
 
+fn run_c11(tier: Tier) -> i32 {
+    use sdmmc_verif::engines::faults;
+    let seed = env_seed();
+    let cfg = faults::cfg();
+    let known = runner::load_known();
+    let thorough = tier == Tier::Thorough;
+    let cases = env_cases(tier.pick(1_500, 60_000));
+    let mut pre = Acc::default();
+    let corpus_fail = runner::replay_corpus::<Case>("C11", &mut pre, &|c, a| faults::run_case(c, a, &known, false, thorough));
+    let mut out = if let Some(v) = corpus_fail {
+        Outcome { acc: Acc::default(), violation: Some(v), wall_s: 0.0 }
+    } else {
+        runner::run_parallel("C11", seed, cases, || fsx::strategy(&cfg), |c: &Case, a| faults::run_case(c, a, &known, false, thorough))
+    };
+    out.acc.merge(pre);
+    let ev = EvidenceIn {
+        prop: "C11",
+        tier,
+        seed,
+        level: "fault_enumeration",
+        rule: "generated short histories (3-14 ops) on volumes with multi-cluster directories; each history is re-executed with a transient fault (read buffer scribbled) at EVERY device-call index (thinned to 400 per history in quick), with a dead device from every 6th index, and with three multi-fault sets. The faulted call must return Err, no panic/hang (device-call budget), failed read-only calls are retried and must then match the model, all handles must close, no directory may end with duplicate names and every file not involved in a failed call must read back intact through a fresh mount. evaluations = histories + fault executions; non-trivial = the fault fired after the first device call of the API call; distinct by (geometry, op-kind sequence, fault plan)",
+        exhaustive: None,
+        assumptions: vec![
+            "a failing device call returns Err to the crate and leaves the medium unchanged; failed reads scribble the caller's buffer".into(),
+            "dropping RAII wrappers swallows errors by documented design, so closes are explicit in this check".into(),
+        ],
+        extra: json!({}),
+    };
+    runner::finish("faults", &out, &ev)
+}
+
 fn run_c06(tier: Tier) -> i32 {
     let seed = env_seed();
     let mut out = dir_pass("C06", seed, env_cases(tier.pick(12_000, 500_000)), true, false);
@@ -219,6 +250,10 @@ fn replay(path: &str) -> i32 {
             let case: Case = serde_json::from_value(rf.case).expect("case does not parse");
             sdmmc_verif::engines::crash::run_case(&sdmmc_verif::engines::crash::cfg_for(prop), &case, &mut acc, &known, true, true)
         }
+        "faults" => {
+            let case: Case = serde_json::from_value(rf.case).expect("case does not parse");
+            sdmmc_verif::engines::faults::run_case(&case, &mut acc, &known, true, true)
+        }
         "dirgen" => {
             let case: dirgen::DirCase = serde_json::from_value(rf.case).expect("case does not parse");
             dirgen::run_case(&case, &mut acc, prop == "C06", prop == "C17", true)
@@ -276,6 +311,7 @@ fn main() {
                 "C08" => run_fsx("C08", tier, "exploration"),
                 "C09" => run_crash("C09", tier),
                 "C10" => run_crash("C10", tier),
+                "C11" => run_c11(tier),
                 "C16" => run_fsx("C16", tier, "exploration"),
                 "C17" => run_c17(tier),
                 "C18" => pure::run_c18(tier, env_seed()),
